@@ -16,7 +16,7 @@
 (* Invariants are the layer-P statements of C01, C04, C07 evaluated on     *)
 (* every run of the bounded family.                                        *)
 (***************************************************************************)
-EXTENDS SolverOps, Randomization, TLC
+EXTENDS SolverOps, DetValues, Randomization, TLC
 
 CONSTANTS Kind,        \* "VI" | "RVI" | "PVI"
           NS, NA, NE,  \* gadget sizes
@@ -236,49 +236,14 @@ RVIBounded ==
      \A s \in S : Abs(V[s]) <= (2 * NS * 10 + 20) * sc
 
 
-(* ---- C01 on deterministic gadgets: optimal values in closed form -----------------*)
-(* For PD = 1, NE = 1 a stationary policy drives every state along a path into a cycle.        *)
-(* Rationals are pairs <<num, den>> with den > 0.                                               *)
-RECURSIVE GCD(_, _)
-GCD(a, b) == IF b = 0 THEN a ELSE GCD(b, a % b)
-RNorm(x) == LET g == GCD(Abs(x[1]), x[2]) IN IF g = 0 THEN <<0, 1>> ELSE <<x[1] \div g, x[2] \div g>>
-RAdd(x, y) == RNorm(<<x[1] * y[2] + y[1] * x[2], x[2] * y[2]>>)
-RMul(x, y) == RNorm(<<x[1] * y[1], x[2] * y[2]>>)
-RLe(x, y)  == x[1] * y[2] <= y[1] * x[2]
-RLt(x, y)  == x[1] * y[2] < y[1] * x[2]
-RSub(x, y) == RNorm(<<x[1] * y[2] - y[1] * x[2], x[2] * y[2]>>)
-RAbs(x)    == <<Abs(x[1]), x[2]>>
-Gam        == <<m.GN, m.GD>>
-RECURSIVE GamPow(_)
-GamPow(k)  == IF k = 0 THEN <<1, 1>> ELSE RMul(Gam, GamPow(k - 1))
-
-RECURSIVE PathState(_, _, _)
-PathState(p, s, k) == IF k = 0 THEN s ELSE PathState(p, m.next[s][p[s]][1], k - 1)
-
-RECURSIVE DiscSum(_, _, _)     \* sum_{j<k} gamma^j r(path(s, j))
-DiscSum(p, s, k) ==
-  IF k = 0 THEN <<0, 1>>
-  ELSE RAdd(DiscSum(p, s, k - 1),
-            RMul(GamPow(k - 1), <<m.rew[PathState(p, s, k - 1)][p[PathState(p, s, k - 1)]][1], 1>>))
-
-DetPolicyValue(p, s) ==
-  LET c == PathState(p, s, NS)                                  \* on the cycle
-      L == CHOOSE l \in 1..NS : PathState(p, c, l) = c /\ \A l2 \in 1..(l - 1) : PathState(p, c, l2) # c
-      gl == GamPow(L)
-      vc == RMul(DiscSum(p, c, L), <<gl[2], gl[2] - gl[1]>>)   \* cycle sum / (1 - gamma^L)
-  IN RAdd(DiscSum(p, s, NS), RMul(GamPow(NS), vc))
-
-Policies == [S -> A]
-RMaxOver(f, D) == CHOOSE x \in {f[d] : d \in D} : \A y \in {f[d] : d \in D} : RLe(y, x)
-DetOptimalValue(s) == RMaxOver([p \in Policies |-> DetPolicyValue(p, s)], Policies)
-
+(* ---- C01 on deterministic gadgets: optimal values in closed form (module DetValues) ----------*)
 IsDeterministic == NE = 1
 
 (* documented loss bound of the returned policy: eps (span), 2*eps (max_diff) *)
 VINearOptimal ==
   (Kind = "VI" /\ IsDeterministic /\ status = "converged" /\ pc = "done" /\ m.GN < m.GD /\ m.GN > 0) =>
      \A s \in S :
-        LET loss == RSub(DetOptimalValue(s), DetPolicyValue(pol, s))
+        LET loss == RSub(DetOptimalValue(m, s), DetPolicyValue(m, pol, s))
         IN /\ RLe(<<0, 1>>, loss)
            /\ RLe(loss, <<(IF test = "span" THEN 1 ELSE 2) * eps[1], eps[2]>>)
 
@@ -286,7 +251,7 @@ VINearOptimal ==
 VIValuesNearOptimal ==
   (Kind = "VI" /\ IsDeterministic /\ status = "converged" /\ pc = "done" /\ test = "max_diff"
      /\ m.GN < m.GD /\ m.GN > 0) =>
-     \A s \in S : RLt(RAbs(RSub(RNorm(<<V[s], sc>>), DetOptimalValue(s))), <<eps[1], eps[2]>>)
+     \A s \in S : RLt(RAbs(RSub(RNorm(<<V[s], sc>>), DetOptimalValue(m, s))), <<eps[1], eps[2]>>)
 
 (* C08 inside the model: convergence is never reported with the measure at or above threshold *)
 ConvergedMeansBelow == status = "converged" => Below(conv, cs)
